@@ -98,6 +98,7 @@ type World struct {
 	byIA     map[addr.IA]*AS
 	Links    int
 	AuthSCMP bool
+	EPIC     bool // extenders add the EPIC authenticators
 	Knobs    Knobs
 	// consBeta: accumulator value used at construction time, per hop field (see consKey)
 	consBeta map[string]uint16
